@@ -260,6 +260,8 @@ class OpRunner(object):
             return d.close()
         if k == 'available':
             return d.available
+        if k == 'locks':
+            return _lock_states(d)
         if k in ('shell', 'exec_out'):
             return getattr(d, k)(op['cmd'], decode=op.get('decode', True), **self._kw(op, T))
         if k == 'root':
@@ -383,6 +385,8 @@ class OpRunner(object):
             return await d.close()
         if k == 'available':
             return d.available
+        if k == 'locks':
+            return _lock_states(d)
         if k in ('shell', 'exec_out'):
             return await getattr(d, k)(op['cmd'], decode=op.get('decode', True), **self._kw(op, T))
         if k == 'root':
@@ -592,6 +596,12 @@ def _execute_sync(scn, tape, L):
             adb_device.Lock = mk_lock
         else:
             waiter = JumpWaiter(run.clock)
+            counter = [0]
+
+            def mk_lock():
+                counter[0] += 1
+                return SimLock(None, 'L%d' % counter[0])
+            adb_device.Lock = mk_lock
         transport, extra = _mk_transport_sync(scn, run, waiter)
         o = scn.get('object', {})
         if scn.get('transport') == 'usb' and scn.get('usb', {}).get('via_class'):
@@ -600,7 +610,7 @@ def _execute_sync(scn, tape, L):
         else:
             obj = adb_device.AdbDevice(transport, default_transport_timeout_s=o.get('default_tt'), banner=o.get('banner', 'simhost'))
         adb_device.Lock = saved_lock
-        if multi:
+        if True:
             # name the locks after their attribute for readable deadlock reports
             for holder in (obj, obj._io_manager):
                 for k, v in vars(holder).items():
@@ -621,7 +631,13 @@ def _execute_sync(scn, tape, L):
         if not multi:
             try:
                 for op in scn.get('pre', []) + actors[0]:
-                    run.results[0].append(runner.do(op))
+                    rec = runner.do(op)
+                    run.results[0].append(rec)
+                    if not rec['ok'] and cfg.get('stop_on_error'):
+                        break
+                run.post = []
+                for op in scn.get('post', []):
+                    run.post.append(runner.do(op))
             except SimHang as e:
                 run.abort = 'hang'
                 run.abort_msg = str(e)
@@ -759,7 +775,10 @@ def _execute_async(scn, tape, L):
 
         async def actor(i, ops):
             for op in ops:
-                run.results[i].append(await runner.ado(op))
+                rec = await runner.ado(op)
+                run.results[i].append(rec)
+                if not rec['ok'] and cfg.get('stop_on_error'):
+                    break
 
         async def main():
             for op in scn.get('pre', []):
